@@ -270,6 +270,15 @@ def run(ctx) -> list[Inst]:
     for s, objs in spec_sinks(pt):
         rel = s.func.module.relpath
         construct = f'{s.op} on {stmt_text(s.recv, 80)}'
+        gobjs = [o for o in objs if o[0] == 'G']
+        if gobjs and SPEC not in objs:
+            insts.append(Inst(
+                RULE, s.func.short, construct, 'violation',
+                msg=(f"'{stmt_text(s.node, 80)}' mutates a container that may be (part of) the module-level literal "
+                     f"defined at {gobjs[0][1]}:{gobjs[0][2]}: that object exists once per process (a shallow copy "
+                     f"shares the nested containers), so what one instance / one call writes is seen by all later ones"),
+                file=rel, line=s.node.lineno, props=tuple(dict.fromkeys(PROPS + ('C06',) ))))
+            continue
         if SPEC in objs:
             others = sorted(o[0] + (f'@{o[2]}' if len(o) > 2 else '') for o in objs if o != SPEC)
             insts.append(Inst(
